@@ -91,6 +91,12 @@ def chk_prog(case):
     re = call(bs.script, dec[1])
     if re != ("ok", exp):
         return [("C13/reassemble/differs", f"script(decode_script(b)) != b for {desc}")]
+    if isinstance(dec[1], list) and dec[1]:
+        dec[1].reverse()
+        dec[1].append("OP_NOP")
+        dec2 = call(bs.decode_script, exp)
+        if dec2[0] != "ok" or call(bs.script, dec2[1]) != ("ok", exp):
+            return [("C13/disassemble/aliased-result", f"decode_script returned a different result after the caller edited the first one ({desc})")]
     return []
 
 
